@@ -13,12 +13,13 @@ Proved here, for every datum, fuel and create key:
 
 * `history_independent_current` (`C16_history_partial`), `recompose_current_eq_pure`: for the code as it
   is now the outcome of recomposing a type does not depend on the history and equals
-  `recomposePure` (every struct decoded with its own field index) — for types in which no struct
-  embeds a pointer (`goodT`) and without `interface{}` slot (`noIface`: create-key names are resolved
-  against the registry by design). No condition on names.
-* `C16_history_full_false`: at full strength the history clause is still false now — a struct that
-  embeds a pointer makes `registerComposer` panic half way (known finding `C16-embedded-pointer`), so
-  a type whose field walk meets it fails on a fresh recomposer and succeeds on one that tried before.
+  `recomposePure` (every struct decoded with its own field index) — for every type without
+  `interface{}` slot (`noIface`: create-key names are resolved against the registry by design). No
+  condition on names, and since /repo b19f06c none on embedded pointers (`goodT_true`).
+* `C16_history_full_false`: at full strength the history clause is false only because of that design:
+  `history_witness` — what an interface slot holding `{"^":"T",…}` comes back as depends on whether `T`
+  was registered. `embedded_pointer_repaired`, `nil_elements_kept`: the repairs b19f06c, 4344ad7,
+  f1da31f on the model; `current_values_in_source` ties them to the source.
 * `history_independent_before`, `recompose_before_eq_pure`: the code before 6d5fecb needed in
   addition that no two struct types met share a bare or full name (`NameInj` over a universe closed
   under components; instance `uex_her`, `uex_inj`); `history_witness_before`,
@@ -36,19 +37,16 @@ open OjgVerif OjgVerif.Reflect
 theorem lookupOK_current_guard : LookupOK (fun _ _ => True) (fun t => goodT t = true) false := by
   intro k n p fs T' _ _ _ _ hb; cases hb
 
-/-- after ANY history of good types a good type without interface slots is recomposed as with the
-ideal registry -/
-theorem recompose_current_eq_pure (ck : Bytes) (h : List Event)
-    (hev : ∀ e ∈ h, EventOK (fun t => goodT t = true) e) (t : GoType) (hg : goodT t = true) (hn : noIface t = true) (j : JV) :
+/-- after ANY history a type without interface slots is recomposed as with the ideal registry
+(since /repo b19f06c no struct type makes `indexType` panic: `goodT_true`) -/
+theorem recompose_current_eq_pure (ck : Bytes) (h : List Event) (t : GoType) (hn : noIface t = true) (j : JV) :
     recompose false ck (regAfter false ck h) t j = recomposePure ck t j :=
   recompose_eq_pure (fun _ _ => True) (fun t => goodT t = true) false goodT_her (fun _ h => h)
-    (fun _ _ _ _ => ⟨trivial, trivial⟩) lookupOK_current_guard ck h hev t hg hn j
+    (fun _ _ _ _ => ⟨trivial, trivial⟩) lookupOK_current_guard ck h (fun e _ => eventOK_good e) t (goodT_true t) hn j
 
-theorem history_independent_current (ck : Bytes) (h₁ h₂ : List Event)
-    (hev₁ : ∀ e ∈ h₁, EventOK (fun t => goodT t = true) e) (hev₂ : ∀ e ∈ h₂, EventOK (fun t => goodT t = true) e)
-    (t : GoType) (hg : goodT t = true) (hn : noIface t = true) (j : JV) :
+theorem history_independent_current (ck : Bytes) (h₁ h₂ : List Event) (t : GoType) (hn : noIface t = true) (j : JV) :
     recompose false ck (regAfter false ck h₁) t j = recompose false ck (regAfter false ck h₂) t j := by
-  rw [recompose_current_eq_pure ck h₁ hev₁ t hg hn, recompose_current_eq_pure ck h₂ hev₂ t hg hn]
+  rw [recompose_current_eq_pure ck h₁ t hn, recompose_current_eq_pure ck h₂ t hn]
 
 /-! ## the code before 6d5fecb (lookup by bare name): names had to determine types -/
 
@@ -165,39 +163,70 @@ def C16_history_full_for (b : Bool) : Prop :=
 def C16_history_full : Prop := C16_history_full_for false
 def C16_history_full_before : Prop := C16_history_full_for true
 
-/-- **C16 (history), partial, for the code as it is now**: excluded are exactly embedded pointers
-(`goodT`) and interface slots (`noIface`) -/
-theorem C16_history_partial (ck : Bytes) (h₁ h₂ : List Event)
-    (hev₁ : ∀ e ∈ h₁, EventOK (fun t => goodT t = true) e) (hev₂ : ∀ e ∈ h₂, EventOK (fun t => goodT t = true) e)
-    (t : GoType) (hg : goodT t = true) (hn : noIface t = true) (j : JV) :
+/-- **C16 (history), partial, for the code as it is now**: excluded are exactly the interface slots
+(`noIface`: create-key names in the data are resolved against the registry by design) -/
+theorem C16_history_partial (ck : Bytes) (h₁ h₂ : List Event) (t : GoType) (hn : noIface t = true) (j : JV) :
     recompose false ck (regAfter false ck h₁) t j = recompose false ck (regAfter false ck h₂) t j :=
-  history_independent_current ck h₁ h₂ hev₁ hev₂ t hg hn j
+  history_independent_current ck h₁ h₂ t hn j
+
+/-- `struct{ A any }` and the named type `pa.T` -/
+def anyHolder : GoType := .struct [] [] [(⟨"A".toUTF8.toList, [], false⟩, .iface)]
+def datumAny : JV := .obj [("a".toUTF8.toList, .obj [([94], .str "T".toUTF8.toList), ("alpha".toUTF8.toList, .str [120])])]
+
+/-- with the create key "^", `{"a":{"^":"T","alpha":"x"}}` into `struct{A any}`: on a fresh recomposer the
+interface holds the map; after `pa.T` was registered it holds a `*pa.T` — by design, the data names
+the type -/
+theorem history_witness :
+    slotIs (recompose false [94] (regAfter false [94] []) anyHolder datumAny)
+      (.struct [.iface (.map .iface) (.map [([94], .iface .str (.str "T".toUTF8.toList)),
+        ("alpha".toUTF8.toList, .iface .str (.str [120]))])]) = true ∧
+    slotIs (recompose false [94] (regAfter false [94] [.register sT]) anyHolder datumAny)
+      (.struct [.iface (.ptr sT) (.ptr (.struct [.str [120], .int 0]))]) = true := by
+  decide +kernel
+
+theorem C16_history_full_false : ¬ C16_history_full := by
+  intro h
+  have h1 := h [94] [] [.register sT] anyHolder datumAny
+  have hw := history_witness
+  rw [h1] at hw
+  have : slotIs (recompose false [94] (regAfter false [94] [.register sT]) anyHolder datumAny)
+      (.struct [.iface (.map .iface) (.map [([94], .iface .str (.str "T".toUTF8.toList)),
+        ("alpha".toUTF8.toList, .iface .str (.str [120]))])]) = false := by decide +kernel
+  rw [this] at hw
+  exact absurd hw.1 (by decide)
 
 /-- `type E struct{ Q int }; type U struct{ *E }; type T struct{ A int; P *U }` -/
 def embU : GoType := .struct "U".toUTF8.toList [] [(⟨"E".toUTF8.toList, [], true⟩, .ptr (.struct "E".toUTF8.toList [] [(⟨"Q".toUTF8.toList, [], false⟩, .int 0)]))]
 def embT : GoType := .struct "T".toUTF8.toList [] [(⟨"A".toUTF8.toList, [], false⟩, .int 0), (⟨"P".toUTF8.toList, [], false⟩, .ptr embU)]
 def datumT : JV := .obj [("a".toUTF8.toList, .int 1)]
+def datumU : JV := .obj [("q".toUTF8.toList, .int 2)]
 
-def slotIsPanic : Slot → Bool
-  | .panic => true
-  | _ => false
-
-/-- on a fresh recomposer `Recompose({"a":1}, &T{})` fails: registering `T` walks to `U`, whose embedded
-pointer makes `indexType` panic; `T` itself was entered before the panic, so the SAME call on a
-recomposer that tried before finds `T`, never looks at `U` (`P` is absent) and succeeds -/
-theorem history_witness :
-    slotIsPanic (recompose false [] (regAfter false [] []) embT datumT) = true ∧
-    slotIs (recompose false [] (regAfter false [] [.register embT]) embT datumT) (.struct [.int 1, .nilPtr]) = true := by
+/-- the witness of the embedded-pointer history dependence (before b19f06c registering `T` panicked at
+`U` on a fresh recomposer and succeeded on one that had tried before) is gone: both give `T{1, nil}`;
+and `U{*E}` is recomposed from `{"q":2}`, the embedded pointer being allocated -/
+theorem embedded_pointer_repaired :
+    slotIs (recompose false [] (regAfter false [] []) embT datumT) (.struct [.int 1, .nilPtr]) = true ∧
+    slotIs (recompose false [] (regAfter false [] [.register embT]) embT datumT) (.struct [.int 1, .nilPtr]) = true ∧
+    slotIs (recompose false [] [] embU datumU) (.struct [.ptr (.struct [.int 2])]) = true := by
   decide +kernel
 
-theorem C16_history_full_false : ¬ C16_history_full := by
-  intro h
-  have h1 := h [] [] [.register embT] embT datumT
-  have hw := history_witness
-  rw [h1] at hw
-  have : slotIsPanic (recompose false [] (regAfter false [] [.register embT]) embT datumT) = false := by decide +kernel
-  rw [this] at hw
-  exact absurd hw.1 (by decide)
+/-- nil elements stay nil (4344ad7, f1da31f): `{"l":[null],"i":[null],"n":{"k":null}}` into
+`struct{ L []*E; I []any; N map[string]any }` -/
+theorem nil_elements_kept :
+    slotIs (recompose false [] []
+        (.struct [] [] [(⟨"L".toUTF8.toList, [], false⟩, .slice (.ptr (.struct "E".toUTF8.toList [] []))),
+          (⟨"I".toUTF8.toList, [], false⟩, .slice .iface), (⟨"N".toUTF8.toList, [], false⟩, .map .iface)])
+        (.obj [("l".toUTF8.toList, .arr [.null]), ("i".toUTF8.toList, .arr [.null]),
+          ("n".toUTF8.toList, .obj [([107], .null)])]))
+      (.struct [.slice [.nilPtr], .slice [.nilIface], .map [([107], .nilIface)]]) = true := by
+  decide +kernel
+
+/-- the value handling of the model is what the source has (regenerated facts; each fails on the
+source before its commit) -/
+theorem current_values_in_source :
+    Gen.Reflect.altNilPtrElemKept = true ∧ Gen.Reflect.altNilIfaceKept = true ∧
+    Gen.Reflect.altEmbeddedPtrIndexed = true := by
+  decide +kernel
 
 /-- the source has the guards and the complete unwrapping of containers in the field walk that the
 model's `bareName = false` stands for (regenerated by `tools/extract/reflect.go`; on the source before
